@@ -262,7 +262,13 @@ func New(config ...Config) fiber.Handler {
 			// avoid body msgp encoding
 			e.body = nil
 			manager.set(key, e, expiration)
-			manager.setRaw(key+"_body", body, expiration)
+			if len(body) == 0 {
+				// storages ignore empty values: a body record left by an earlier response for
+				// this key must not be served together with this (body-less) entry
+				manager.del(key + "_body")
+			} else {
+				manager.setRaw(key+"_body", body, expiration)
+			}
 			manager.release(e)
 		} else {
 			// Store entry in memory
